@@ -13,7 +13,7 @@ from .common import coq_bool, coq_list, coq_str
 PID = "C05"
 PROPS_FILE = "props/C05.v"
 MODEL_TARGETS = ["model/Crash.vo", "model/GraphDump.vo", "model/GraphInv.vo", "model/CrashStartup.vo",
-                 "model/CrashEngine.vo"]
+                 "model/CrashEngine.vo", "model/CrashHist.vo"]
 RULE = ("E3 crash runs on the real director: a project (8 hand-written families: chain, diamond, sub-plan, "
         "amended inputs/outputs with deferral, optional chain whose consumer is dropped, dropped steps with nested "
         "directories and volatile outputs, newly declared static files + env change, failing step; plus "
